@@ -434,6 +434,13 @@ def term_definite_difference(a, b, depth=0):
                 return None
             reason = r
         return reason
+    if ka == "slice" and len(a) == 4:
+        # a missing lower bound is 0, a missing step is 1
+        nz = ("const", None)
+        a = ("slice", ("const", 0) if a[1] == nz else a[1], a[2], ("const", 1) if a[3] == nz else a[3])
+        b = ("slice", ("const", 0) if b[1] == nz else b[1], b[2], ("const", 1) if b[3] == nz else b[3])
+        if a == b:
+            return None
     if ka in ("sub", "bin", "un", "tuple", "list", "slice", "elem", "phi"):
         reason = None
         for p, q in zip(a[1:], b[1:]):
